@@ -292,3 +292,24 @@ rw [Finset.sum_congr rfl e, Finset.sum_sub_distrib, Finset.sum_add_distrib, ← 
     Finset.sum_ite_eq' (Finset.Ico (0:ℤ) N) b]
 simp [hmem]
 """)
+
+
+lemma("sum_nonneg",
+      types={"lo": "int", "hi": "int", "F": "arr1"},
+      hyps=[("h", "forall(i, range(lo, hi), F[i] >= 0)")],
+      concl="Sum(i, range(lo, hi), F[i]) >= 0",
+      proof="""
+apply Finset.sum_nonneg
+intro i hi'
+exact h i (Finset.mem_Ico.mp hi').1 (Finset.mem_Ico.mp hi').2
+""")
+lemma("sum_scale",
+      types={"lo": "int", "hi": "int", "c": "real", "F": "arr1", "G": "arr1"},
+      hyps=[("h", "forall(i, range(lo, hi), G[i] == c*F[i])")],
+      concl="Sum(i, range(lo, hi), G[i]) == c*Sum(i, range(lo, hi), F[i])",
+      proof="""
+rw [Finset.mul_sum]
+apply Finset.sum_congr rfl
+intro i hi'
+exact h i (Finset.mem_Ico.mp hi').1 (Finset.mem_Ico.mp hi').2
+""")
